@@ -222,8 +222,8 @@ def registry():
     return reg
 
 
-def run_registry(res, deadline, only=None):
-    for name, fn, builders in registry():
+def run_registry(res, deadline, only=None, reg=None):
+    for name, fn, builders in (registry() if reg is None else reg):
         if only is not None and name != only[0]:
             continue
         for bi, b in enumerate(builders):
@@ -232,7 +232,7 @@ def run_registry(res, deadline, only=None):
             if deadline.expired():
                 res.capped = True
                 return
-            case = {'part': 'registry', 'func': name, 'args_index': bi}
+            case = {'part': 'registry', 'func': name, 'args_index': bi, 'section': getattr(run_registry, '_section', None)}
             feats = {'part': 'registry', 'func': name}
             args = b()
             before = snap(args)
@@ -279,9 +279,11 @@ def run_registry(res, deadline, only=None):
             if not isinstance(o1, types.GeneratorType):
                 try:
                     kept = fn(*b())
-                    for other in builders:
+                    nb = len(builders)
+                    others = [builders[j % nb] for j in sorted({bi + 1, bi + 2, bi + nb // 2, 0})] if nb > 4 else list(builders)
+                    for other in others:
                         fn(*other())
-                    res.transitions += 1 + len(builders)
+                    res.transitions += 1 + len(others)
                     later = result_value(kept)
                 except observe.ObserverError:
                     raise
@@ -297,6 +299,69 @@ def run_registry(res, deadline, only=None):
 
 def _s(v):
     return repr(v)[:600]
+
+
+def bulk_registry(section):
+    """Systematic argument menus (small exhaustive spaces, as in the other properties) for the functions whose special
+    paths depend on the VALUES: sign patterns, widths, nesting / touching intervals, empty rows."""
+    import itertools
+    import bionumpy as bnp
+    from bionumpy.io import strops
+    from bionumpy.arithmetics import intervals as iv
+    from bionumpy.datatypes import Interval, StrandedInterval
+    from bionumpy.sequence import get_reverse_complement, get_kmers, match_string, count_kmers
+    E = bnp.as_encoded_array
+    reg = []
+    if section == 'numbers':
+        spell = ['0', '7', '-3', '+5', '007', '-0', '+0', '12345', '-12345', '999999999999999', '+10', '1']
+        reg.append(('strops.str_to_int', strops.str_to_int,
+                    [lambda t=t: (E(list(t)),) for n in (1, 2) for t in itertools.product(spell, repeat=n)]))
+        ints = [0, 1, -1, 9, 10, -10, 99, 10 ** 15 - 1, -(10 ** 15), 2 ** 63 - 1, -2 ** 63]
+        reg.append(('strops.ints_to_strings', strops.ints_to_strings,
+                    [lambda t=t: (np.array(t, dtype=np.int64),) for n in (1, 2) for t in itertools.product(ints, repeat=n)]))
+        ftexts = ['0.5', '-2.25', '10', '1e3', '2.5e-3', '-1e-10', '.5', '5.', '-0.0', '0']
+        reg.append(('strops.str_to_float', strops.str_to_float,
+                    [lambda t=t: (E(list(t)),) for n in (1, 2) for t in itertools.product(ftexts, repeat=n)]))
+        opt = ['.', '5', '-3', '+7', '']
+        reg.append(('strops.str_to_int_with_missing', strops.str_to_int_with_missing,
+                    [lambda t=t: (E(list(t)),) for t in itertools.product(opt[:4], repeat=2)]))
+        texts = ['', 'a', 'a,b', ',a', 'a,', ',,', 'ab,c,,d']
+        reg.append(('strops.split', strops.split, [lambda t=t: (E(t), ',') for t in texts if t]))
+        reg.append(('strops.join', strops.join, [lambda t=t: (E(list(t)), ',') for t in itertools.product(['', 'a', 'bc'], repeat=2)]))
+    elif section == 'intervals':
+        S = 3
+        ivs = [(a, b) for a in range(S) for b in range(a + 1, S + 1)]
+        sets = [()] + [(x,) for x in ivs] + [t for t in itertools.combinations_with_replacement(ivs, 2)]
+
+        def I(t):
+            t = sorted(t)
+            return Interval(['c'] * len(t), [a for a, _ in t], [b for _, b in t]) if t else Interval.empty()
+        reg.append(('get_pileup', iv.get_pileup, [lambda t=t: (I(t), S) for t in sets]))
+        reg.append(('get_boolean_mask', iv.get_boolean_mask, [lambda t=t: (I(t), S) for t in sets]))
+        reg.append(('merge_intervals', iv.merge_intervals, [lambda t=t, d=d: (I(t), d) for t in sets if t for d in (0, 1, 2)]))
+        reg.append(('sort_intervals', iv.sort_intervals, [lambda t=t: (I(t[::-1]),) for t in sets if t]))
+        reg.append(('clip', iv.clip, [lambda t=t: (Interval(['c'] * len(t), [a - 1 for a, _ in t], [b + 1 for _, b in t]), np.full(len(t), S))
+                                      for t in sets if t]))
+        reg.append(('extend_to_size', iv.extend_to_size,
+                    [lambda t=t, s=s, L=L: (StrandedInterval(['c'] * len(t), [a for a, _ in t], [b for _, b in t], list(s)), L,
+                                            np.full(len(t), S))
+                     for t in sets if t for s in itertools.product('+-', repeat=len(t)) for L in (1, 2, 4)]))
+        small = [t for t in sets if len(t) <= 1]
+        reg.append(('count_overlap', iv.count_overlap, [lambda a=a, b=b: (I(a), I(b)) for a in small if a for b in small if b]))
+        reg.append(('intersect', iv.intersect, [lambda a=a, b=b: (I(a), I(b)) for a in small if a for b in small if b]))
+    elif section == 'sequences':
+        strings = [''.join(t) for n in range(0, 3) for t in itertools.product('ACGT', repeat=n)]
+        rows = [(a,) for a in strings] + [(a, b) for a in strings[:9] for b in strings[:9]]
+        for enc_name, enc in (('DNA', bnp.DNAEncoding), ('ASCII', None)):
+            mk = (lambda r, enc=enc: E(list(r), enc) if enc is not None else E(list(r)))
+            reg.append(('get_reverse_complement[%s]' % enc_name, get_reverse_complement, [lambda r=r, mk=mk: (mk(r),) for r in rows]))
+            reg.append(('match_string[%s]' % enc_name, match_string,
+                        [lambda r=r, mk=mk, p=p: (mk(r), p) for r in rows if sum(map(len, r)) >= 2 for p in ('A', 'AC')]))
+        reg.append(('get_kmers', get_kmers, [lambda r=r, k=k: (E(list(r), bnp.DNAEncoding), k) for r in rows for k in (1, 2)
+                                             if sum(map(len, r)) >= k]))
+        reg.append(('count_kmers', count_kmers, [lambda r=r, k=k: (E(list(r), bnp.DNAEncoding), k) for r in rows for k in (1, 2)
+                                                 if sum(map(len, r)) >= k]))
+    return reg
 
 
 # ---------------------------------------------------------------- part B: lazy chunk invariant
@@ -525,7 +590,7 @@ def bounds(tier, seed):
 
 
 def shards(tier, seed):
-    out = [{'part': 'registry'}]
+    out = [{'part': 'registry'}] + [{'part': 'bulk', 'section': sec} for sec in ('numbers', 'intervals', 'sequences')]
     for fmt in CHUNK_FORMATS:
         for view in VIEWS_BY_FORMAT.get(fmt, VIEWS):
             out.append({'part': 'chunk', 'format': fmt, 'view': view, 'max_fields': 6 if tier == 'quick' else None})
@@ -536,6 +601,10 @@ def run_shard(desc, deadline):
     res = Result()
     if desc['part'] == 'registry':
         run_registry(res, deadline)
+    elif desc['part'] == 'bulk':
+        run_registry._section = desc['section']
+        run_registry(res, deadline, reg=bulk_registry(desc['section']))
+        run_registry._section = None
     else:
         run_chunk_invariant(res, desc['format'], desc['view'], desc['max_fields'], deadline)
     return res
@@ -547,7 +616,8 @@ def replay_case(case):
     res = Result()
     d = Deadline(time.time() + 600)
     if case['part'] == 'registry':
-        run_registry(res, d, only=(case['func'], case['args_index']))
+        run_registry(res, d, only=(case['func'], case['args_index']),
+                     reg=bulk_registry(case['section']) if case.get('section') else None)
     else:
         run_chunk_invariant(res, case['format'], case['view'], None, d, only_hist=case['hist'])
     out = []
